@@ -30,11 +30,11 @@ static const char *rule(const std::string &prop) {
     if (prop == "C11")
         return "cases: duplicate-heavy generated sorted arrays (runs of length 2, eps, eps+1, 2eps..2eps+3, 4eps, 2^k+-1, >> eps; runs ending at n) over "
                "{u16,i16,u32,i32,u64,i64} x 6 (Epsilon in {1,4,8,128}, EpsilonRecursive in {0,4}, Floating in {float,double}) MappedPGMIndex configurations, 3/4 built from an iterator "
-               "range and 1/4 from a raw key file; queries = keys, +-1, gap mid-points, boundaries, far values. oracle: std::lower_bound / upper_bound / "
+               "range (vector iterators, raw pointers, std::deque iterators, reverse iterators, 1/4 each) and 1/4 from a raw key file; in half of the cases a longer stale file sits at an output path; queries = keys, +-1, gap mid-points, boundaries, far values. oracle: std::lower_bound / upper_bound / "
                "count / binary_search, begin()..end() equals the data, size(). non-trivial: a queried run longer than 2eps+2 and a query outside "
                "[front, back]; distinct by canonical tape hash";
     return "cases: data as C11 (first key zero, positive, negative) + a generated script over {create from range, create from raw file, reopen A, reopen B, "
-           "reopen again}. oracle: the two written files are byte-identical, a file is byte-identical before/after every reopen, the file ends with the "
+           "reopen again}; the range comes as vector / pointer / deque / reverse iterators; in half of the cases a longer stale file sits at one or both output paths. oracle: the two written files are byte-identical, a file is byte-identical before/after every reopen, the file ends with the "
            "keys, every instance answers the whole query set like the std algorithms. non-trivial: both constructors, >=1 reopen, first key != 0; "
            "distinct by canonical tape hash";
 }
